@@ -264,12 +264,16 @@ func kdeRecord(out io.Writer, args []string) error {
 		c := cfg{kern: kernels[rng.Intn(3)]}
 		c.h = pickH()
 		c.kind, c.lo, c.hi = pickB(c.h, c.kern)
+		noneInf := rng.Intn(2) == 0
 		apply := func() {
 			kde.Kernel = kk[c.kern]
 			kde.Bandwidth = math.Ldexp(c.h, sc)
 			switch c.kind {
 			case "none":
 				kde.BoundaryMin, kde.BoundaryMax = 0, 0
+				if noneInf { // "no boundary" written out: the support is the whole line
+					kde.BoundaryMin, kde.BoundaryMax = math.Inf(-1), math.Inf(1)
+				}
 			case "lo":
 				kde.BoundaryMin, kde.BoundaryMax = real(c.lo), math.Inf(1)
 			case "hi":
